@@ -6,6 +6,8 @@ From Coq Require Import List NArith ZArith Bool Lia.
 From Coq.Strings Require Import Byte.
 Require Import GV.Base.Res GV.Base.Byt GV.Base.Ints GV.Model.Leb GV.Model.Prim.
 Require Import GV.Spec.CfiSpec GV.Model.CfiRd GV.Proofs.CfiRdProofs.
+Require GV.Spec.CfaSpec GV.Model.CfiRun GV.Proofs.CfiRunProofs.
+Require Import GV.Model.CfiUwi GV.Proofs.CfiUwiProofs.
 Import ListNotations.
 Local Open Scope N_scope.
 
@@ -349,6 +351,179 @@ Proof. exact pointer_to_offset_underflow_witness. Qed.
 
 Example total_hypotheses_instance : asz_ok (sc_asz ex_cfg) /\ asz_ok (h_asz ex_hdr).
 Proof. split; right; right; right; reflexivity. Qed.
+
+(* ================================================================== 8. unwind information for an address *)
+(* Model/CfiUwi.v: UnwindSection::unwind_info_for_address = fde_for_address (this property's lookup
+   model) followed by FrameDescriptionEntry::unwind_info_for_address (C06's CfiRun table evaluator),
+   linked by the adapter fde_in_of. Rows, contexts, storage limits (caps), spec_of / spec_unl /
+   within_limits / row_equiv are C06's (Model/CfiRun.v, Spec/CfaSpec.v, Proofs/CfiRunProofs.v).
+   uwi_result_spec a srows o res: if some spec row contains a, res = Ok r with r row_equiv to the FIRST
+   such row sr (same [start,end), CFA, args size and the same rule for EVERY register) and
+   sr.start <= a < sr.end; otherwise res is how the table ended (Done -> NoUnwindInfoForAddress,
+   Fail e -> e). *)
+
+(* for EVERY byte string: the lookup, then the first row of the FDE's table containing the address *)
+Theorem unwind_info_is_lookup_then_table : forall dbg cp c aa sec cx a,
+  fst (unwind_info_for_address dbg cp c aa sec cx a) =
+  match fde_for_address dbg c sec a with
+  | Ok fd => let f := fde_in_of (sc_be c) aa fd in
+             pick a (fst (fst (CfiRun.fde_rows dbg cp f cx))) (snd (fst (CfiRun.fde_rows dbg cp f cx)))
+  | Err e => Err e
+  | Panic => Panic
+  | OutOfFuel => OutOfFuel
+  end.
+Proof. exact uwi_compose. Qed.
+
+(* for a section whose traversal completes and whose FDEs all parse: no FDE covers a ->
+   NoUnwindInfoForAddress; otherwise the FIRST FDE IN SECTION ORDER that covers a is used (this is
+   the statement for overlapping FDEs) and the result is the row of ITS call-frame table (C06 spec,
+   storage limits as a guard) containing a, or the specific error that stopped the table before
+   reaching a. Scoped to sections where no DW_CFA_set_loc with an encoded operand is reached
+   (section_setloc_plain: that is where the adapter is exact; see set_loc_* below). *)
+Theorem unwind_info_row_of_spec_table : forall dbg cp c aa sec cx a items fds,
+  asz_ok (sc_asz c) -> CfiRun.cap_full (CfaSpec.max_stack cp) 0 = false ->
+  entries_all dbg c sec = Ok (items, None) ->
+  parsed_fdes dbg c sec items = Some fds ->
+  section_setloc_plain dbg c aa fds ->
+  match find (fun f => covers f a) fds with
+  | None => fst (unwind_info_for_address dbg cp c aa sec cx a) = Err ENoUnwindInfoForAddress
+  | Some fd =>
+      let f := fde_in_of (sc_be c) aa fd in
+      uwi_result_spec a (fst (CfiRunProofs.spec_of dbg cp f)) (snd (CfiRunProofs.spec_of dbg cp f))
+                      (fst (unwind_info_for_address dbg cp c aa sec cx a))
+  end.
+Proof. exact uwi_spec_scoped_lem. Qed.
+
+(* the same against the DWARF machine WITHOUT storage limits, when its occupancy fits the storage *)
+Theorem unwind_info_row_of_unlimited_table : forall dbg cp c aa sec cx a items fds fd,
+  asz_ok (sc_asz c) -> CfiRun.cap_full (CfaSpec.max_stack cp) 0 = false ->
+  entries_all dbg c sec = Ok (items, None) ->
+  parsed_fdes dbg c sec items = Some fds ->
+  find (fun f => covers f a) fds = Some fd ->
+  let f := fde_in_of (sc_be c) aa fd in
+  CfiRunProofs.within_limits dbg cp f = true ->
+  uwi_result_spec a (fst (CfiRunProofs.spec_unl dbg f)) (snd (CfiRunProofs.spec_unl dbg f))
+                  (fst (unwind_info_for_address dbg cp c aa sec cx a)).
+Proof. exact uwi_spec_unl_lem. Qed.
+
+(* it succeeds (with a row containing a) iff some FDE covers a — provided the table of the first
+   covering FDE evaluates to its end (otherwise the theorem above names the error) *)
+Theorem unwind_info_succeeds_iff_covered : forall dbg cp c aa sec cx a items fds,
+  asz_ok (sc_asz c) ->
+  entries_all dbg c sec = Ok (items, None) ->
+  parsed_fdes dbg c sec items = Some fds ->
+  (forall fd, find (fun f => covers f a) fds = Some fd ->
+              snd (fst (CfiRun.fde_rows dbg cp (fde_in_of (sc_be c) aa fd) cx)) = CfaSpec.Done) ->
+  ((exists r, fst (unwind_info_for_address dbg cp c aa sec cx a) = Ok r /\ CfiRun.row_contains r a = true)
+   <-> exists fd, In fd fds /\ covers fd a = true).
+Proof. exact uwi_succeeds_iff_lem. Qed.
+
+Example unwind_info_instance :
+  asz_ok (sc_asz ex_uw_cfg) /\ CfiRun.cap_full (CfaSpec.max_stack ex_heap) 0 = false /\
+  (exists items, entries_all true ex_uw_cfg ex_uw_sec = Ok (items, None) /\
+                 parsed_fdes true ex_uw_cfg ex_uw_sec items = Some ex_uw_fds) /\
+  section_setloc_plain true ex_uw_cfg false ex_uw_fds /\
+  (* 0x200d lies in BOTH FDEs: the first in section order is used, third row of its table *)
+  map (fun f => covers f 8205) ex_uw_fds = [true; true] /\
+  (exists r, fst (unwind_info_for_address true ex_heap ex_uw_cfg false ex_uw_sec ex_ctx 8205) = Ok r /\
+             CfiRun.r_start r = 8204 /\ CfiRun.r_end r = 8256 /\ CfiRun.r_cfa r = CfaSpec.CfaRegOff 7 16 /\
+             CfiRun.rm_get 3 (CfiRun.r_regs r) = Some (CfaSpec.ROffset (-16))) /\
+  (* 0x204e only in the second *)
+  (exists r, fst (unwind_info_for_address true ex_heap ex_uw_cfg false ex_uw_sec ex_ctx 8270) = Ok r /\
+             CfiRun.r_start r = 8200 /\ CfiRun.r_end r = 8300 /\ CfiRun.r_cfa r = CfaSpec.CfaRegOff 7 99) /\
+  fst (unwind_info_for_address true ex_heap ex_uw_cfg false ex_uw_sec ex_ctx 9000) = Err ENoUnwindInfoForAddress /\
+  forallb (fun fd => CfiRunProofs.within_limits true ex_heap (fde_in_of false false fd)) ex_uw_fds = true.
+Proof.
+  split; [right; right; right; reflexivity|]. split; [reflexivity|].
+  split; [eexists; split; [vm_compute; reflexivity|reflexivity]|].
+  split. { intros fd [<-|[<-|[]]]; vm_compute; reflexivity. }
+  split; [vm_compute; reflexivity|].
+  split; [eexists; split; [vm_compute; reflexivity|repeat split]|].
+  split; [eexists; split; [vm_compute; reflexivity|repeat split]|].
+  split; vm_compute; reflexivity.
+Qed.
+
+(* the header path uses whatever FDE the chosen table row designates (lookup -> pointer_to_offset ->
+   fde_from_offset), for EVERY header, table and section, overlapping FDEs or not: that FDE's table
+   when it covers the address, NoUnwindInfoForAddress when it does not *)
+Theorem hdr_unwind_info_uses_designated_fde : forall dbg cp hb h c aa sec cx a,
+  asz_ok (sc_asz c) ->
+  fst (hdr_unwind_info_for_address dbg cp hb h c aa sec cx a) =
+  (let* p := hdr_lookup dbg hb h a in
+   let* o := pointer_to_offset dbg h p in
+   let* fd := fde_from_offset dbg c sec o in
+   if covers fd a then
+     let f := fde_in_of (sc_be c) aa fd in
+     pick a (fst (fst (CfiRun.fde_rows dbg cp f cx))) (snd (fst (CfiRun.fde_rows dbg cp f cx)))
+   else Err ENoUnwindInfoForAddress).
+Proof. exact hdr_uwi_designated_lem. Qed.
+
+(* well-formed header over disjoint FDEs: both ways of asking give the same row and leave the same context *)
+Theorem unwind_info_paths_agree : forall dbg cp hb h c aa sec cx a items fds size o0 rows locs extra tfds e,
+  asz_ok (sc_asz c) ->
+  entries_all dbg c sec = Ok (items, None) ->
+  parsed_fdes dbg c sec items = Some fds ->
+  wf_hdr dbg hb h fds size o0 rows locs extra tfds e ->
+  hdr_unwind_info_for_address dbg cp hb h c aa sec cx a = unwind_info_for_address dbg cp c aa sec cx a.
+Proof. exact uwi_paths_agree_lem. Qed.
+
+(* (instance of the hypotheses: hdr_lookup_agrees_instance above, same wf_hdr) *)
+
+Theorem unwind_info_total : forall dbg cp c aa sec cx a,
+  asz_ok (sc_asz c) -> CfiRun.cap_full (CfaSpec.max_stack cp) 0 = false ->
+  fst (unwind_info_for_address dbg cp c aa sec cx a) <> Panic /\
+  fst (unwind_info_for_address dbg cp c aa sec cx a) <> OutOfFuel.
+Proof. exact uwi_total_lem. Qed.
+
+(* ---- DW_CFA_set_loc under the CIE's FDE address encoding ---- *)
+(* its target is what pointer_roundtrip assigns to the operand bytes with the section's bases, the
+   operand's own offset and no function base; indirect encodings are refused *)
+Theorem set_loc_roundtrip : forall dbg c f enc o v rest ind a,
+  fde_addr_enc f = Some enc ->
+  enc < 256 -> asz_ok (ci_asz (fd_cie f)) -> valid_spec enc = true -> enc <> 255 ->
+  value_fits (fmt_of enc) (ci_asz (fd_cie f)) v = true ->
+  ptr_spec enc (ci_asz (fd_cie f)) (pb_of (mkpp (sc_bases c) None (ci_asz (fd_cie f)))) o v = Some (ind, a) ->
+  parse_set_loc dbg c f
+    (mkrd o (enc_value (fmt_of enc) (ci_asz (fd_cie f)) (sc_be c) v ++ rest)) =
+  if ind then Err EUnsupportedIndirectPointer
+  else Ok (a, mkrd (o + nlen (enc_value (fmt_of enc) (ci_asz (fd_cie f)) (sc_be c) v)) rest).
+Proof. exact set_loc_roundtrip_lem. Qed.
+
+Theorem set_loc_all_inputs : forall dbg c f enc r,
+  fde_addr_enc f = Some enc -> enc < 256 -> asz_ok (ci_asz (fd_cie f)) ->
+  parse_set_loc dbg c f r =
+  let pp := mkpp (sc_bases c) None (ci_asz (fd_cie f)) in
+  if negb (valid_spec enc) then Err EUnknownPointerEncoding
+  else if enc =? 255 then Err ECannotParseOmitPointerEncoding
+  else match base_spec (app_of enc) (pp_asz pp) (pb_of pp) (off r) with
+       | None => Err (base_err (app_of enc))
+       | Some base =>
+           let* (offset, r1) := parse_encoded_value dbg (sc_be c) enc pp r in
+           if negb (ind_of enc =? 0) then Err EUnsupportedIndirectPointer
+           else Ok ((base + offset) mod 2 ^ (8 * pp_asz pp), r1)
+       end.
+Proof. exact set_loc_all_inputs_lem. Qed.
+
+Theorem set_loc_plain_address : forall dbg c f o v rest,
+  fde_addr_enc f = None -> asz_ok (ci_asz (fd_cie f)) -> v < 2 ^ (8 * ci_asz (fd_cie f)) ->
+  parse_set_loc dbg c f (mkrd o (un_bytes (N.to_nat (ci_asz (fd_cie f))) (sc_be c) v ++ rest)) =
+  Ok (v, mkrd (o + ci_asz (fd_cie f)) rest).
+Proof. exact set_loc_plain_lem. Qed.
+
+Example set_loc_instance :
+  (* FDE at 0x1000+21.., first instruction DW_CFA_set_loc with pcrel|sdata4 operand 0x200 at section offset 35 *)
+  exists items f, entries_all true ex_uw_cfg ex_sl_sec = Ok (items, None) /\
+    parsed_fdes true ex_uw_cfg ex_sl_sec items = Some [f] /\
+    fde_addr_enc f = Some 27 /\ asz_ok (ci_asz (fd_cie f)) /\ valid_spec 27 = true /\
+    value_fits (fmt_of 27) (ci_asz (fd_cie f)) 512 = true /\
+    ptr_spec 27 (ci_asz (fd_cie f)) (pb_of (mkpp (sc_bases ex_uw_cfg) None (ci_asz (fd_cie f)))) 35 512 = Some (false, 4643) /\
+    exists r1, first_set_loc true ex_uw_cfg f = Ok (Some (4643, r1)).
+Proof.
+  eexists. eexists. split; [vm_compute; reflexivity|]. split; [vm_compute; reflexivity|].
+  split; [reflexivity|]. split; [right; right; right; reflexivity|].
+  split; [vm_compute; reflexivity|]. split; [vm_compute; reflexivity|]. split; [vm_compute; reflexivity|].
+  eexists. vm_compute. reflexivity.
+Qed.
 
 (* statement pins *)
 Check eh_pe_valid_all : forall e, e < 256 -> pe_is_valid e = valid_spec e.
